@@ -213,7 +213,16 @@ func matchResp(exp abs.Resp, obs observed, checkOcc bool) string {
 			}
 		}
 		explained := false
-		if root >= 0 {
+		// ... unless the field's resolver WAS invoked and failed on the spot: an error that has been recorded is kept,
+		// whatever nulls the response afterwards (only a failure that lies in the future - a deferred value that is
+		// never forced, a resolver that never runs because a sibling killed the parent first - may go unreported)
+		recorded := false
+		for _, c := range obs.Calls {
+			if pathKey(c.P) == k && (c.Oc == "err" || c.Oc == "valerr" || c.Oc == "panic" || c.Oc == "panics") {
+				recorded = true
+			}
+		}
+		if root >= 0 && !recorded {
 			for _, p := range obs.Errs {
 				if len(p) >= root && pathKey(p[:root]) == pathKey(e[:root]) && potential[pathKey(p)] {
 					explained = true
